@@ -695,6 +695,9 @@ func (h *Hist) Block() bool {
 			h.Stats["begin.matured"]++
 			if f := strings.Fields(v); len(f) == 6 && f[5] != "0" {
 				h.Stats["begin.matured-move"]++
+				if _, ok := h.View["cand "+f[5]]; !ok {
+					h.Stats["begin.matured-move-target-gone"]++ // re-frozen as an unbond (fix for F9)
+				}
 			}
 		}
 	}
